@@ -11,6 +11,7 @@ set_option linter.unusedSimpArgs false
 namespace Mqtt.Proofs.Broker
 open Mqtt.Iface.Broker Mqtt.Model.Broker
 open Mqtt.Model.Topics (MemTopics RMsg SNode RNode levels validQos Level)
+open Mqtt.Proofs.Topics (entryLevels)
 open Mqtt.Proofs.Topics (WF RWF abs absR good Entry)
 open Mqtt.Properties.C06
 open Mqtt.Spec.Match (split validName validFilter)
@@ -35,11 +36,11 @@ theorem delEntry_perm (es es' : List Entry) (ls : List Level) (c : Nat) (h : es.
 /-- the entries after the per-filter loop of a SUBSCRIBE from subscriber `c` -/
 def entriesAfterSub (c : Nat) (topics : List (Bytes × Nat)) (es : List Entry) : List Entry :=
   topics.foldl (fun es tq =>
-    if accepts tq.1 tq.2 then addEntry es (levels tq.1).1 c (min tq.2 Mqtt.Generated.maxQosAllowed) else es) es
+    if accepts tq.1 tq.2 then addEntry es (entryLevels tq.1).1 c (min tq.2 Mqtt.Generated.maxQosAllowed) else es) es
 
 /-- the entries after the per-filter loop of an UNSUBSCRIBE from subscriber `c` -/
 def entriesAfterUnsub (c : Nat) (topics : List Bytes) (es : List Entry) : List Entry :=
-  topics.foldl (fun es t => if (levels t).2 then delEntry es (levels t).1 c else es) es
+  topics.foldl (fun es t => if (entryLevels t).2 then delEntry es (entryLevels t).1 c else es) es
 
 theorem entriesAfterSub_perm (c : Nat) (topics : List (Bytes × Nat)) :
     ∀ es es' : List Entry, es.Perm es' → (entriesAfterSub c topics es).Perm (entriesAfterSub c topics es') := by
@@ -69,24 +70,24 @@ theorem entriesAfterUnsub_perm (c : Nat) (topics : List Bytes) :
 
 theorem subscribe_abs (mt : MemTopics) (t : Bytes) (q c : Nat) (h : WF mt.sroot) :
     (abs (mt.subscribe Mqtt.Generated.maxQosAllowed t q c).1.sroot).Perm
-      (if accepts t q then addEntry (abs mt.sroot) (levels t).1 c (min q Mqtt.Generated.maxQosAllowed)
+      (if accepts t q then addEntry (abs mt.sroot) (entryLevels t).1 c (min q Mqtt.Generated.maxQosAllowed)
        else abs mt.sroot) := by
   rw [subscribe_sroot]
   unfold accepts
-  obtain ⟨_, h2, h3⟩ := C06_sinsert_refines mt.sroot (levels t).1 c (min q Mqtt.Generated.maxQosAllowed) h
+  obtain ⟨_, h2, h3⟩ := C06_sinsert_refines mt.sroot (entryLevels t).1 c (min q Mqtt.Generated.maxQosAllowed) h
   cases hv : validQos q with
   | false => simp
   | true =>
-    cases hl : (levels t).2 with
+    cases hl : (entryLevels t).2 with
     | false => simpa using h3
     | true => simpa [addEntry] using h2
 
 theorem unsubscribe_abs (mt : MemTopics) (t : Bytes) (c : Nat) (h : WF mt.sroot) :
     (abs (mt.unsubscribe t (some c)).1.sroot).Perm
-      (if (levels t).2 then delEntry (abs mt.sroot) (levels t).1 c else abs mt.sroot) := by
+      (if (entryLevels t).2 then delEntry (abs mt.sroot) (entryLevels t).1 c else abs mt.sroot) := by
   rw [unsubscribe_sroot]
-  obtain ⟨_, h2, _, _, h5⟩ := C06_sremove_refines mt.sroot (levels t).1 c h
-  cases hl : (levels t).2 with
+  obtain ⟨_, h2, _, _, h5⟩ := C06_sremove_refines mt.sroot (entryLevels t).1 c h
+  cases hl : (entryLevels t).2 with
   | false => rw [h5]; simp
   | true => simpa [delEntry] using h2
 
@@ -151,7 +152,7 @@ theorem entriesAfterSub_others (c : Nat) (topics : List (Bytes × Nat)) : ∀ es
   | cons tq rest ih =>
     intro es
     simp only [entriesAfterSub, List.foldl_cons]
-    have := ih (if accepts tq.1 tq.2 then addEntry es (levels tq.1).1 c (min tq.2 Mqtt.Generated.maxQosAllowed) else es)
+    have := ih (if accepts tq.1 tq.2 then addEntry es (entryLevels tq.1).1 c (min tq.2 Mqtt.Generated.maxQosAllowed) else es)
     simp only [entriesAfterSub] at this
     rw [this]
     split
@@ -169,7 +170,7 @@ theorem entriesAfterUnsub_others (c : Nat) (topics : List Bytes) : ∀ es : List
   | cons t rest ih =>
     intro es
     simp only [entriesAfterUnsub, List.foldl_cons]
-    have := ih (if (levels t).2 then delEntry es (levels t).1 c else es)
+    have := ih (if (entryLevels t).2 then delEntry es (entryLevels t).1 c else es)
     simp only [entriesAfterUnsub] at this
     rw [this]
     split
@@ -180,7 +181,7 @@ theorem entriesAfterUnsub_others (c : Nat) (topics : List Bytes) : ∀ es : List
     · rfl
 
 theorem entriesAfterSub_keep (c : Nat) (post : List (Bytes × Nat)) (ls : List Level) (g : Nat)
-    (hpost : ∀ tq ∈ post, accepts tq.1 tq.2 = true → (levels tq.1).1 ≠ ls) :
+    (hpost : ∀ tq ∈ post, accepts tq.1 tq.2 = true → (entryLevels tq.1).1 ≠ ls) :
     ∀ es : List Entry, (ls, c, g) ∈ es → (ls, c, g) ∈ entriesAfterSub c post es := by
   induction post with
   | nil => intro es h; exact h
@@ -194,7 +195,7 @@ theorem entriesAfterSub_keep (c : Nat) (post : List (Bytes × Nat)) (ls : List L
       simp only [addEntry, List.mem_append, List.mem_filter, List.mem_singleton]
       left
       refine ⟨h, ?_⟩
-      have : (ls == (levels tq.1).1) = false := by simpa using fun hx => hne hx.symm
+      have : (ls == (entryLevels tq.1).1) = false := by simpa using fun hx => hne hx.symm
       simp [this]
     · exact h
 
@@ -202,8 +203,8 @@ theorem entriesAfterSub_keep (c : Nat) (post : List (Bytes × Nat)) (ls : List L
 names the same filter: its entry, with its own return code, is in the result -/
 theorem entriesAfterSub_mem (c : Nat) (pre post : List (Bytes × Nat)) (t : Bytes) (q : Nat) (es : List Entry)
     (ha : accepts t q = true)
-    (hpost : ∀ tq ∈ post, accepts tq.1 tq.2 = true → (levels tq.1).1 ≠ (levels t).1) :
-    ((levels t).1, c, min q Mqtt.Generated.maxQosAllowed) ∈ entriesAfterSub c (pre ++ (t, q) :: post) es := by
+    (hpost : ∀ tq ∈ post, accepts tq.1 tq.2 = true → (entryLevels tq.1).1 ≠ (entryLevels t).1) :
+    ((entryLevels t).1, c, min q Mqtt.Generated.maxQosAllowed) ∈ entriesAfterSub c (pre ++ (t, q) :: post) es := by
   simp only [entriesAfterSub, List.foldl_append, List.foldl_cons, ha, ↓reduceIte]
   apply entriesAfterSub_keep c post _ _ hpost
   simp [addEntry]
@@ -221,8 +222,8 @@ theorem entriesAfterUnsub_subset (c : Nat) (topics : List Bytes) : ∀ (es : Lis
     · exact this
 
 theorem entriesAfterUnsub_absent (c : Nat) (topics : List Bytes) (t : Bytes) (ht : t ∈ topics)
-    (hl : (levels t).2 = true) : ∀ (es : List Entry) (q : Nat),
-    ((levels t).1, c, q) ∉ entriesAfterUnsub c topics es := by
+    (hl : (entryLevels t).2 = true) : ∀ (es : List Entry) (q : Nat),
+    ((entryLevels t).1, c, q) ∉ entriesAfterUnsub c topics es := by
   induction topics with
   | nil => cases ht
   | cons t' rest ih =>
@@ -329,7 +330,7 @@ theorem entriesAfterSub_held (c : Nat) (topics : List (Bytes × Nat)) (hg : ∀ 
     | true =>
       simp only [↓reduceIte]
       have hvt : validFilter t = true := by simp only [Bool.and_eq_true] at hcond; exact hcond.1
-      rw [(Mqtt.Proofs.Topics.levels_valid t hgt hvt).1, c2 hcond, addEntry_held]
+      rw [(Mqtt.Proofs.Topics.entryLevels_valid t hgt hvt).1, c2 hcond, addEntry_held]
       apply ih (fun x hx => hg x (List.mem_cons_of_mem _ hx))
       intro h hh
       simp only [addHeld, List.mem_append, List.mem_filter, List.mem_singleton] at hh
@@ -350,16 +351,16 @@ theorem entriesAfterUnsub_held (c : Nat) (topics : List Bytes) (hg : ∀ t ∈ t
     intro held hv
     have hgt : good t = true := hg t (by simp)
     simp only [entriesAfterUnsub, List.foldl_cons]
-    have hstep : (if (levels t).2 then delEntry (held.map heldEntry) (levels t).1 c else held.map heldEntry) =
+    have hstep : (if (entryLevels t).2 then delEntry (held.map heldEntry) (entryLevels t).1 c else held.map heldEntry) =
         (held.filter (fun h => !(h.owner == c && h.filter == t))).map heldEntry := by
       cases hvt : validFilter t with
       | true =>
-        obtain ⟨e1, e2⟩ := Mqtt.Proofs.Topics.levels_valid t hgt hvt
+        obtain ⟨e1, e2⟩ := Mqtt.Proofs.Topics.entryLevels_valid t hgt hvt
         rw [e1, e2]
         simp only [↓reduceIte]
         exact delEntry_held held c t
       | false =>
-        rw [Mqtt.Proofs.Topics.levels_invalid t hgt hvt]
+        rw [Mqtt.Proofs.Topics.entryLevels_invalid t hgt hvt]
         simp only [Bool.false_eq_true, ↓reduceIte]
         congr 1
         symm
@@ -386,11 +387,12 @@ theorem subscribers_char (mt : MemTopics) (t : Bytes) (q : Nat) (hwf : WF mt.sro
     ∃ r, mt.subscribers t q = some r ∧
       r.Perm (((abs mt.sroot).filter (fun e => Mqtt.Spec.Match.matchLevels e.1 (split t))).map
         (fun e => (e.2.1, min q e.2.2))) := by
-  obtain ⟨e1, e2⟩ := Mqtt.Proofs.Topics.levels_valid t hg (Mqtt.Proofs.Topics.validName_validFilter t hn)
+  obtain ⟨e1, e2⟩ := Mqtt.Proofs.Topics.entryLevels_valid t hg (Mqtt.Proofs.Topics.validName_validFilter t hn)
   have hvq : validQos q = true := by rw [Mqtt.Proofs.Topics.validQos_iff]; simpa using hq
   obtain ⟨r, hr, hp⟩ := C06_smatch_char mt.sroot (split t) q hwf
   refine ⟨r, ?_, ?_⟩
-  · simp only [MemTopics.subscribers, hvq, Bool.not_true, Bool.false_eq_true, ↓reduceIte, SNode.smatch]
+  · rw [Mqtt.Proofs.Topics.subscribers_entry]
+    simp only [hvq, Bool.not_true, Bool.false_eq_true, ↓reduceIte]
     rw [← e1, ← e2] at hr
     exact hr
   · refine hp.trans ?_
